@@ -7,7 +7,7 @@ Three oracles on the same generated states (random integrator x option tuple x m
  3. lock-step continuation: x and y advance k steps side by side; per-boundary state hashes and the final sabin must be identical.
 """
 import json, math, os, sys, random, tempfile
-from vf import core, layout, gen
+from vf import core, layout, gen, build
 
 PROPERTY = "C05"
 
@@ -386,10 +386,55 @@ def main(tier, seed):
             if a['digest'] != b['digest']:
                 V.violation(('twin:run-continued-on-fresh-copies-differs-from-straight-run:%s' if c['hopmax'] else 'twin:trajectory-depends-on-fresh-heap-contents:%s') % c['spec']['integrator'],
                             dict(case=c, detail=dict(msg='the same script gives different final bits under MALLOC_PERTURB_=255 (fresh memory zeroed) and =85 (fresh memory 0xAA) (N %r -> %r / %r)' % (a['N'][0], a['N'][1], b['N'][1]))))
+    # ---- valgrind memcheck on a C driver (cdrv/memchk.c): clusters with mergers / bounces mid-step under TRACE, MERCURIUS, IAS15(+MEGNO),
+    # WHFast, BS and LEAPFROG+tree, the run moving onto a fresh copy of itself every few dozen steps.  Memcheck tracks definedness bit by bit:
+    # every use of a never-written value inside the library is reported with both stacks (the twin runs above only see such a read when it
+    # changes the result).  -O0 build; reports are keyed by the innermost library function.
+    import subprocess, re
+    from concurrent.futures import ThreadPoolExecutor
+    binm = build.cdriver('memchk', 'dbg', ['memchk.c'])
+    nchunks, per, nst = (4, 7, 150) if tier == 'quick' else (32, 14, 400)
+
+    def memchk(ci):
+        cmd = ['valgrind', '-q', '--error-exitcode=9', '--track-origins=yes', '--error-limit=no', binm, str(seed * 1000 + 7), str(ci * per), str(per), str(nst)]
+        try:
+            p = subprocess.run(cmd, capture_output=True, text=True, timeout=1500)
+        except subprocess.TimeoutExpired:
+            return ci, None, '', ''
+        return ci, p.returncode, p.stdout, p.stderr
+    with ThreadPoolExecutor(16) as ex:
+        mres = list(ex.map(memchk, range(nchunks)))
+    for ci, rc, out, err in mres:
+        V.evaluations += 1
+        if rc is None:
+            V.inconclusive.append('watchdog fired (1500s) on memcheck chunk %d' % ci)
+            continue
+        jobs = re.findall(r'^JOB (\d+) kind (\d+) N (\d+) -> (\d+) steps (\d+) hops (\d+)', out, re.M)
+        V.count('memcheck_jobs', len(jobs))
+        V.count('memcheck_jobs_with_removals', sum(1 for j in jobs if j[2] != j[3]))
+        V.count('memcheck_steps', sum(int(j[4]) for j in jobs))
+        V.count('memcheck_copies_continued_on', sum(int(j[5]) for j in jobs))
+        for j in jobs:
+            V.cells.add(json.dumps(['memcheck', int(j[1]), j[2] != j[3]]))
+        blocks = re.split(r'\n==\d+== \n', err)
+        nrep = 0
+        for b in blocks:
+            m = re.search(r'==\d+== (Conditional jump or move depends on uninitialised value|Use of uninitialised value|Invalid read|Invalid write|Syscall param .* uninitialised|Invalid free|Mismatched free)', b)
+            if not m:
+                continue
+            frames = re.findall(r'(?:at|by) 0x[0-9A-F]+: (\w+) \((\w+\.c):(\d+)\)', b)
+            lib = [f for f in frames if f[1] != 'memchk.c']
+            if not lib:
+                continue
+            nrep += 1
+            V.violation('memcheck:%s:%s' % (m.group(1).split(' depends')[0].replace(' ', '-').lower()[:40], lib[0][0]),
+                        dict(case=dict(chunk=ci, cmd=' '.join(cmd_ for cmd_ in ['valgrind', binm, str(seed * 1000 + 7), str(ci * per), str(per), str(nst)])), detail=dict(msg=b[:1800])))
+        if 'DONE' not in out and nrep == 0:
+            V.harness_errors.append('memcheck chunk %d ended rc=%r without DONE: %s' % (ci, rc, err[-800:]))
     import shutil
     shutil.rmtree(td, ignore_errors=True)
     inc = []
-    for k in ('leaves_compared', 'continuation_boundaries', 'unsynchronized_savepoints', 'internal_arrays_nonempty', 'heapfill_twin_runs_compared'):
+    for k in ('leaves_compared', 'continuation_boundaries', 'unsynchronized_savepoints', 'internal_arrays_nonempty', 'heapfill_twin_runs_compared', 'memcheck_jobs_with_removals'):
         if V.counters.get(k, 0) == 0:
             inc.append('monitor counter %s is zero' % k)
     return V.finish(
